@@ -160,7 +160,10 @@ Variable I : config -> Prop.
 Hypothesis I_step : forall c ch c', I c -> step md D F c ch = SStep c' -> I c'.
 Hypothesis I_compat : forall c a b c1 c2, I c -> a ≠ b ->
   step md D F c a = SStep c1 -> step md D F c b = SStep c2 -> indep md D c a b.
-Hypothesis I_safe : forall c ch who e, I c -> step md D F c ch ≠ SError who e.
+(* a run-time error of one choice is not cured by a step of another choice (in particular: there
+   are no run-time errors at all, which is C01) *)
+Hypothesis I_err : forall c a b w e c', I c -> step md D F c a = SError w e -> step md D F c b = SStep c' ->
+  exists w' e', step md D F c' a = SError w' e'.
 
 Definition stp (c : config) (ch : choice) : option config :=
   match step md D F c ch with SStep c' => Some c' | _ => None end.
@@ -192,10 +195,22 @@ Notation term := (terminal stp).
 Lemma quiescent_terminal c : quiescent md D F c -> term c.
 Proof. intros Hq a. unfold stp. by rewrite Hq. Qed.
 
-Lemma terminal_quiescent c : I c -> term c -> quiescent md D F c.
+Lemma quiescent_equiv c d : cfg_equiv c d -> quiescent md D F c -> quiescent md D F d.
+Proof. intros He Hq ch. pose proof (step_equiv md D F c d ch He) as H. by rewrite Hq in H. Qed.
+
+(* errors persist along step sequences, so a configuration from which quiescence is reachable
+   has no erroneous choice *)
+Lemma error_persists n c t a w e :
+  I c -> run_steps n c t -> step md D F c a = SError w e -> exists w' e', step md D F t a = SError w' e'.
 Proof.
-  intros HI Ht ch. specialize (Ht ch). unfold stp in Ht.
-  destruct (step md D F c ch) eqn:E; [done|done|]. by destruct (I_safe _ _ _ _ HI E).
+  intros HI H. revert w e HI. induction H as [c|n c b c' t Hs Hn IH]; intros w e HI Ha; [eauto|].
+  apply stp_Some in Hs. destruct (I_err _ _ _ _ _ _ HI Ha Hs) as (w' & e' & Ha'). eapply IH; eauto.
+Qed.
+
+Lemma no_error_before_quiescence n c t a w e :
+  I c -> run_steps n c t -> quiescent md D F t -> step md D F c a ≠ SError w e.
+Proof.
+  intros HI Hn Hq Ha. destruct (error_persists _ _ _ _ _ _ HI Hn Ha) as (w' & e' & H). by rewrite Hq in H.
 Qed.
 
 Lemma run_steps_J n c t : J c -> run_steps n c t -> J t.
@@ -220,10 +235,10 @@ Qed.
 (* under the invariant, every run of the interpreter with enough fuel ends quiescent, in a
    configuration equivalent to the end of any given maximal step sequence *)
 Lemma exec_run_complete pick fuel : forall n c t,
-  J c -> run_steps n c t -> term t -> (n < fuel)%nat ->
+  J c -> run_steps n c t -> quiescent md D F t -> (n < fuel)%nat ->
   exists t', exec_run fuel pick md D F c = RQuiescent t' /\ cfg_equiv t' t.
 Proof.
-  induction fuel as [|f IH]; intros n c t HJ Hn Ht Hf; [lia|]. cbn [exec_run].
+  induction fuel as [|f IH]; intros n c t HJ Hn Hq Hf; [lia|]. pose proof (quiescent_terminal _ Hq) as Ht. cbn [exec_run].
   destruct (enabled md D F c) as [|e0 es] eqn:E.
   - exists c. split; [done|]. apply enabled_nil_quiescent in E.
     inversion Hn as [|n0 c0 a c1 t0 Hs _]; subst; [done|]. apply stp_Some in Hs. by rewrite E in Hs.
@@ -234,11 +249,11 @@ Proof.
     + assert (Hs : stp c ch = Some c') by (by apply stp_Some).
       assert (H1 : run_steps 1 c c') by (econstructor; [exact Hs|constructor]).
       destruct (uniform stp cfg_equiv J stp_eqv J_stp J_diam n c t HJ Hn Ht 1%nat c' H1) as [Hle (t1 & Ht1 & He1)].
-      assert (Hterm1 : term t1).
-      { eapply (terminal_eqv stp cfg_equiv stp_eqv); [exact Ht|by symmetry]. }
-      destruct (IH (n - 1)%nat c' t1 (J_stp _ _ _ HJ Hs) Ht1 Hterm1 ltac:(lia)) as (t' & Hr & He).
+      assert (Hq1 : quiescent md D F t1).
+      { eapply quiescent_equiv; [|exact Hq]. by symmetry. }
+      destruct (IH (n - 1)%nat c' t1 (J_stp _ _ _ HJ Hs) Ht1 Hq1 ltac:(lia)) as (t' & Hr & He).
       exists t'. split; [done|]. by etrans.
-    + destruct HJ as [HI _]. by destruct (I_safe _ _ _ _ HI Es).
+    + destruct HJ as [HI _]. by destruct (no_error_before_quiescence _ _ _ _ _ _ HI Hn Hq Es).
 Qed.
 
 (* ---- C03, partial: REMAINING HYPOTHESES are the three Section hypotheses on the invariant I:
@@ -251,7 +266,11 @@ Qed.
                 channel are never both enabled in asynchronous mode
                 (`Diamond.async_send_recv_exclusive`) and are ONE choice (`Rendezvous`) in
                 synchronous mode;
-   * I_safe   — no step of an I-configuration is a run-time error (this is C01, type safety).
+   * I_err    — a run-time error of one choice is not cured by a step of another choice.  This
+                holds trivially when I-configurations have no run-time errors (C01, type safety:
+                `determinism_partial_safe` below); without C01 it follows from the same kind of
+                independence as I_compat (`Diamond.error_stable`), and then the theorem also says
+                that WHETHER a program dies with an error does not depend on the schedule.
    `ns_ok` (namespace hygiene) is NOT a hypothesis for runs from `init_config`: it is proved
    (`ns_ok_init`, `ns_ok_step`).  Conclusion: if ONE run of the interpreter (any oracle `pick1`)
    reaches quiescence, then EVERY run (any oracle `pick2`, at least as much fuel) reaches
@@ -264,7 +283,7 @@ Theorem determinism_partial c pick1 pick2 f1 f2 t1 :
   exists t2, exec_run f2 pick2 md D F c = RQuiescent t2 /\ cfg_equiv t2 t1 /\ labels t2 ≡ₚ labels t1.
 Proof.
   intros HI Hns H1 Hf. apply exec_run_sound in H1 as (n & Hn & Hr & Hq).
-  destruct (exec_run_complete pick2 f2 n c t1 (conj HI Hns) Hr (quiescent_terminal _ Hq) ltac:(lia)) as (t2 & H2 & He).
+  destruct (exec_run_complete pick2 f2 n c t1 (conj HI Hns) Hr Hq ltac:(lia)) as (t2 & H2 & He).
   exists t2. split; [done|]. split; [done|]. by apply cfg_equiv_labels.
 Qed.
 
@@ -284,11 +303,52 @@ Proof.
   by destruct (uniform stp cfg_equiv J stp_eqv J_stp J_diam n c t (conj HI Hns) Hn (quiescent_terminal _ Hq) m c' Hm).
 Qed.
 
+(* a run that ends in a run-time error: the erroneous configuration is reachable *)
+Lemma exec_run_error_sound pick fuel c t who e :
+  exec_run fuel pick md D F c = RError t who e ->
+  exists n ch, run_steps n c t /\ step md D F t ch = SError who e.
+Proof.
+  revert c. induction fuel as [|f IH]; intros c; cbn [exec_run]; [discriminate|].
+  destruct (enabled md D F c) as [|e0 es] eqn:E; [discriminate|].
+  set (ch := nth _ _ _). destruct (step md D F c ch) as [|c'|who' e'] eqn:Es; [discriminate| |].
+  - intros H. apply IH in H as (n & ch' & Hr & He). exists (S n), ch'. split; [|done].
+    econstructor; [|exact Hr]. by apply stp_Some.
+  - intros [= <- <- <-]. exists 0%nat, ch. split; [constructor|done].
+Qed.
+
+(* whether a program dies with a run-time error does not depend on the schedule either: if one run
+   ends in an error, no run reaches quiescence *)
+Theorem error_excludes_completion c pick1 pick2 f1 f2 t1 who e t2 :
+  I c -> ns_ok c -> exec_run f1 pick1 md D F c = RError t1 who e ->
+  exec_run f2 pick2 md D F c = RQuiescent t2 -> False.
+Proof.
+  intros HI Hns H1 H2. apply exec_run_error_sound in H1 as (m & ch & Hm & He).
+  apply exec_run_sound in H2 as (n & _ & Hn & Hq).
+  destruct (uniform stp cfg_equiv J stp_eqv J_stp J_diam n c t2 (conj HI Hns) Hn (quiescent_terminal _ Hq) m t1 Hm)
+    as [_ (t' & Ht' & He')].
+  assert (Hq' : quiescent md D F t') by (eapply quiescent_equiv; [|exact Hq]; by symmetry).
+  destruct (run_steps_J _ _ _ (conj HI Hns) Hm) as [HI1 _].
+  exact (no_error_before_quiescence _ _ _ _ _ _ HI1 Ht' Hq' He).
+Qed.
+
 Corollary determinism_partial_init p pick1 pick2 f1 f2 t1 :
   I (init_config p) -> exec_run f1 pick1 md D F (init_config p) = RQuiescent t1 -> (f1 <= f2)%nat ->
   exists t2, exec_run f2 pick2 md D F (init_config p) = RQuiescent t2 /\ cfg_equiv t2 t1 /\ labels t2 ≡ₚ labels t1.
 Proof. intros HI. apply determinism_partial; [done|apply ns_ok_init]. Qed.
 End Determinism.
+
+(* the same with "no run-time errors" (C01) in place of error persistence *)
+Theorem determinism_partial_safe (md : exec_mode) (D : tenv) (F : list fundef) (I : config -> Prop) :
+  (forall c ch c', I c -> step md D F c ch = SStep c' -> I c') ->
+  (forall c a b c1 c2, I c -> a ≠ b -> step md D F c a = SStep c1 -> step md D F c b = SStep c2 -> indep md D c a b) ->
+  (forall c ch who e, I c -> step md D F c ch ≠ SError who e) ->
+  forall c pick1 pick2 f1 f2 t1,
+    I c -> ns_ok c -> exec_run f1 pick1 md D F c = RQuiescent t1 -> (f1 <= f2)%nat ->
+    exists t2, exec_run f2 pick2 md D F c = RQuiescent t2 /\ cfg_equiv t2 t1 /\ labels t2 ≡ₚ labels t1.
+Proof.
+  intros H1 H2 H3. apply determinism_partial; [done|done|].
+  intros c a b w e c' HI Ha. by destruct (H3 _ _ _ _ HI Ha).
+Qed.
 
 (* ------------------------------------------------------------------ the full statements aimed at *)
 Require Import Grits.TcTop.
@@ -316,7 +376,8 @@ Theorem determinism_statement_from_invariant (p' : program) (md : exec_mode) (I 
   (forall c ch c', I c -> step md (p_types p') (p_funs p') c ch = SStep c' -> I c') ->
   (forall c a b c1 c2, I c -> a ≠ b -> step md (p_types p') (p_funs p') c a = SStep c1 ->
      step md (p_types p') (p_funs p') c b = SStep c2 -> indep md (p_types p') c a b) ->
-  (forall c ch who e, I c -> step md (p_types p') (p_funs p') c ch ≠ SError who e) ->
+  (forall c a b w e c', I c -> step md (p_types p') (p_funs p') c a = SError w e ->
+     step md (p_types p') (p_funs p') c b = SStep c' -> exists w' e', step md (p_types p') (p_funs p') c' a = SError w' e') ->
   I (init_config p') ->
   forall pick1 pick2 f1 f2 t1,
     exec_run f1 pick1 md (p_types p') (p_funs p') (init_config p') = RQuiescent t1 -> (f1 <= f2)%nat ->
